@@ -33,7 +33,7 @@ COMPONENTS = {"real": "whole IPhreeqc library from /repo's working tree (ASan+UB
 ASSUMPTIONS = ["a destroyed instance keeps nothing: the restart runs in a new instance of the same process",
                "relative tolerance 1e-7 on follow-up numbers as the statement grants, absolute floor 1e-10 (alkalinity and saturation indices near zero are differences of large numbers); pe is not compared (indeterminate without a redox couple)"]
 REACH_PROBES = ["restores", "fixed_point_checked", "followup_cells_compared", "file_restores", "inmemory_roundtrips", "solution_modify_restores", "kinds:surface", "kinds:gas_phase", "kinds:kinetics", "kinds:solid_solutions", "kinds:exchange"]
-tiers = {"quick": dict(runs=900, budget_s=160, workers=16), "thorough": dict(runs=10000, budget_s=1700, workers=16)}
+tiers = {"quick": dict(runs=1800, budget_s=160, workers=16), "thorough": dict(runs=10000, budget_s=1700, workers=16)}
 
 S1 = c07.S1
 BUILD = {
